@@ -255,7 +255,13 @@ func (c *FnCtx) ptrLoad(st *State, p string, et types.Type) string {
 		id := c.fieldID(name)
 		t = ite(and(app("(_ is pfield)", p), eq(app("pf_id", p), fmt.Sprint(id))), sel(c.heapGet(st, name, sort), app("pf_ref", p)), t)
 	}
-	return c.smt.define("pld", c.sortOf(et), t)
+	r := c.smt.define("pld", c.sortOf(et), t)
+	if !strings.Contains(r, "q.") {
+		// the heap only holds well-typed values and allocated references
+		c.heapTyped(et, r)
+		c.closedHeap(st, et, r, 0)
+	}
+	return r
 }
 
 func (c *FnCtx) ptrStore(st *State, p string, et types.Type, v string) {
